@@ -12,7 +12,7 @@ package table
 //@ pred (w *filterWriter).fwwf = w.baseLg < 64 && bwf(w.buf) && w.nKeys >= 0
 
 //@ func (*filterWriter).generate
-//@   props C16
+//@   props C16 C13
 //@   mode bv
 //@   requires w.generator != nil && fwwf(w)
 //@   ensures fwwf(w) && w.nKeys == 0
@@ -22,7 +22,7 @@ package table
 //@   ensures w.baseLg == old(w.baseLg) && w.generator == old(w.generator)
 
 //@ func (*filterWriter).flush
-//@   props C16
+//@   props C16 C13
 //@   mode bv
 //@   requires fwwf(w)
 //@   loop 1
@@ -211,10 +211,10 @@ package table
 
 // Summarised by their inferred effects wherever they are called (nothing is assumed about their results).
 //@ func (*Reader).NewIterator
-//@   props C19
+//@   props C19 C06
 //@   trusted
 //@ func NewReader
-//@   props C19
+//@   props C19 C06
 //@   trusted
 
 // (reading and decoding the footer and metaindex blocks is C13 material: left abstract here)
